@@ -113,6 +113,14 @@ def gen_plan(rng, tier, i):
                 site = rng.choice(["form_edge", "form_edge", "expand", "center", "transform_end", "to_local", "get_frame"])
                 op["fail"] = {"kind": "inject", "site": site, "k": rng.randint(1, 4) if site in ("expand", "form_edge") else rng.randint(1, 2)}
         ops.append(op)
+    import random
+
+    child = random.Random("c15-child:" + repr([o_["op"] for o_ in ops]) + repr(objs[0].get("cov_seed")))  # added after the first version: own generator, earlier plans keep their draws
+    for o_ in ops:
+        if o_["op"] == "pickle" and child.random() < 0.4:
+            o_["where"] = child.choice(["copy", "deepcopy"])
+    if child.random() < 0.15 and len(ops) < 6:  # (histories of length <= 6, as the quantifier says)
+        ops.insert(child.randint(0, len(ops)), {"op": "pickle", "obj": child.randrange(8), "where": child.choice(["copy", "deepcopy"])})
     return {"knobs": {"objects": objs, "with_eop": False}, "ops": ops}
 
 
@@ -162,6 +170,20 @@ def build_object(node, spec, env):
     return orb
 
 
+def man_sig(m):
+    """What a maneuver object holds (by value): a copy and its source may share maneuver objects, so nothing done to one of the two
+    states may change them."""
+    out = [type(m).__name__]
+    for k, v in sorted(vars(m).items()):
+        if hasattr(v, "tobytes"):
+            out.append((k, np.asarray(v, dtype=float).tobytes()))
+        elif hasattr(v, "scale") and hasattr(v, "datetime"):
+            out.append((k, world.date_key(v)))
+        else:
+            out.append((k, repr(v)))
+    return tuple(out)
+
+
 def snap(o):
     """Everything a caller can observe of one object, as comparable data."""
     d = o._data
@@ -183,7 +205,7 @@ def snap(o):
         "frame": d["frame"].name,
         "date": world.date_key(d["date"]),
         "meta": meta,
-        "mans": None if mans is None else tuple(id(m) for m in (mans if isinstance(mans, list) else [mans])),
+        "mans": None if mans is None else tuple((id(m), man_sig(m)) for m in (mans if isinstance(mans, list) else [mans])),
         "cov": None if cov is None else np.array(cov, dtype=float).tobytes(),
         "cov_frame": None if cov is None else str(getattr(cov.frame, "name", cov.frame)),
         "prop": id(d.get("propagator")) if "propagator" in d else None,
@@ -789,6 +811,32 @@ class Heap:
             ctx.violate("pure-conversion", {"kind": "receiver_changed_by_pickle"}, f"{where}: pickling modified the object")
         if before[j]["cov"] is not None:
             ctx.probe("pickle_with_cov")
+        if where_ in ("copy", "deepcopy"):
+            # the standard copy module: copy.copy(obj) / copy.deepcopy(obj) are copies like any other - independent and usable
+            import copy as _copy
+
+            ctx.probe("copy_module_used")
+            try:
+                new = (_copy.copy if where_ == "copy" else _copy.deepcopy)(o)
+            except Exception as e:  # noqa
+                ctx.violate("round-trip", {"kind": "copy_module_fails", "how": where_}, f"{where}: copy.{where_}(obj) raised {type(e).__name__}: {e}")
+                return
+            if snap(o) != before[j]:
+                ctx.violate("pure-conversion", {"kind": "receiver_changed_by_copy_module"}, f"{where}: copy.{where_}() modified the object")
+            self.check_unpickled(j, new, before, where + f" (copy.{where_})", self.node, how="copy." + where_)
+            try:
+                new.name = "COPY-" + str(len(self.objs))
+            except Exception:  # noqa
+                return
+            ctx.checks += 1
+            if snap(o) != before[j]:
+                ctx.violate("no-aliasing", {"kind": "shared_metadata_dict", "via": "copy." + where_}, f"{where}: a name given to the result of copy.{where_}(obj) shows in the object it was copied from")
+                return
+            if self.ctx.violation is None:
+                self.objs.append(new)
+                self.rel.append(j)
+                self.group.append(max(self.group) + 1)
+            return
         if where_ == "same":
             try:
                 new = pickle.loads(data)
@@ -815,12 +863,12 @@ class Heap:
                 return
             self.check_unpickled(j, new, before, where + f" ({where_})", other)
 
-    def check_unpickled(self, j, new, before, where, node):
+    def check_unpickled(self, j, new, before, where, node, how="pickle"):
         ctx = self.ctx
         try:
             ok = self.same_content(before[j], new, where, "pickle")
         except Exception as e:  # noqa
-            ctx.violate("round-trip", {"kind": "unpickled_object_broken", "had_cov": before[j]["cov"] is not None}, f"{where}: the unpickled object cannot even be inspected: {type(e).__name__}: {e}")
+            ctx.violate("round-trip", {"kind": "unpickled_object_broken" if how == "pickle" else "copied_object_broken", "had_cov": before[j]["cov"] is not None, "how": how}, f"{where}: the unpickled object cannot even be inspected: {type(e).__name__}: {e}")
             return
         if not ok:
             return
@@ -831,7 +879,7 @@ class Heap:
         try:
             a = np.array(new.copy(frame=tgt, form="cartesian"), dtype=float)
         except Exception as e:  # noqa
-            ctx.violate("round-trip", {"kind": "unpickled_object_broken", "had_cov": before[j]["cov"] is not None}, f"{where}: the unpickled object cannot be converted to {tgt}: {type(e).__name__}: {e}")
+            ctx.violate("round-trip", {"kind": "unpickled_object_broken" if how == "pickle" else "copied_object_broken", "had_cov": before[j]["cov"] is not None, "how": how}, f"{where}: the unpickled object cannot be converted to {tgt}: {type(e).__name__}: {e}")
             return
         with self.node:
             b = np.array(src.copy(frame=tgt, form="cartesian"), dtype=float)
